@@ -762,6 +762,10 @@ impl DebugSession {
     }
 
     fn create_machine(&mut self, adapter: Box<dyn MachineAdapter + Send + Sync>) {
+        // A machine that comes with its own code (the test runner) also comes with its own way of reading its memory, which
+        // is what its assertions use while it runs. That must not be replaced by one that goes through the adapter's lock:
+        // whoever steps or pauses the machine is holding that lock, and would wait for itself.
+        let reads_its_own_memory = adapter.codegen().is_some();
         if let Some(cg) = adapter.codegen() {
             self.codegen = Some(cg);
         } else {
@@ -769,7 +773,7 @@ impl DebugSession {
         }
         let adapter = Arc::new(RwLock::new(adapter));
 
-        if let Some(codegen) = &self.codegen {
+        if let Some(codegen) = self.codegen.as_ref().filter(|_| !reads_its_own_memory) {
             let mut codegen = codegen.lock().unwrap();
             ensure_ram_fn(
                 &mut codegen,
